@@ -334,7 +334,7 @@ def run(ctx):
     with open(tfile, "w") as f:
         json.dump(events, f, separators=(",", ":"))
     tr = ctx.tlc("config", "ConfigFlowTrace", name, workers=1, deadlock=False, timeout=900, extra_files=[tfile, p])
-    m = re.search(r'<<"@@REJECT", (\d+), (.*)>>', tr.stdout)
+    m = re.search(r'<<\s*"@@REJECT",\s*(\d+),\s*(.*?)\s*>>', tr.stdout, re.S)
     tr.reject = (int(m.group(1)), m.group(2)) if m else None
     if tr.timeout or (tr.error and not tr.violated):
         raise kit.Inconclusive("TLC trace validation: %s" % tr.error[:1000])
